@@ -14,6 +14,7 @@
 (*   C  all triples of DANGEROUS components in (name, path[1], path[2])    *)
 (*   T  tar entry names: <= 3 components from the dangerous set            *)
 (*   U, V  alternative sources of one value;  W  colliding paths x padding *)
+(*   TL archives as sequences of typed entries (links, then writes through) *)
 (***************************************************************************)
 EXTENDS Paths, Json
 CONSTANTS TIER
@@ -93,6 +94,28 @@ TarEntries == IF TIER = "quick" THEN UNION {[1 .. k -> DangerQ] : k \in 1 .. 3}
               ELSE UNION {[1 .. k -> Danger] : k \in 1 .. 2} \cup [1 .. 3 -> DangerQ]
 
 B01(b) == IF b THEN 1 ELSE 0
+\* TL: ARCHIVES AS SEQUENCES OF TYPED ENTRIES.  A link entry (symbolic / hard) whose NAME is inside the destination and whose
+\* target is a place inside or outside it (written as an absolute or as a relative link name), followed by a regular entry
+\* at the link's own name or below it; a chain of two links; a harmless entry before.  Places (sandbox of harness/c07):
+\* up 3 = the directory two levels above the data directory, up 2 = the parent of the data directory, up 1 = the data
+\* directory, up 0 = the destination; "#..." = the names of the sentinel files / directories planted there.
+m == <<"L", "L">>
+PlacesTL == {[up |-> 2, down |-> << <<"#sib">> >>], [up |-> 2, down |-> << <<"#sib">>, <<"#keep">> >>],
+             [up |-> 2, down |-> << <<"#up1">> >>], [up |-> 3, down |-> << <<"#up2">> >>],
+             [up |-> 1, down |-> << <<"#zz">> >>], [up |-> 1, down |-> << <<"#zz">>, <<"#keep">> >>],
+             [up |-> 1, down |-> <<>>], [up |-> 2, down |-> <<>>], [up |-> 0, down |-> <<m>>], [up |-> 0, down |-> <<>>]}
+EReg(n) == [name |-> n, typ |-> "reg", up |-> 0, down |-> <<>>, abs |-> 0]
+ELnk(n, t, p, a) == [name |-> n, typ |-> t, up |-> p.up, down |-> p.down, abs |-> a]
+LinkNames == {<<l>>, <<l, m>>}
+Follow(n) == {n, n \o <<l>>, n \o <<m, l>>}
+NF == UNION {{<<n, f>> : f \in Follow(n)} : n \in LinkNames}      \* (link name, name of the entry that follows)
+ArchTL == {<<ELnk(x[1], t, p, a), EReg(x[2])>> : x \in NF, t \in {"sym", "hard"}, p \in PlacesTL, a \in {0, 1}}
+          \cup {<<ELnk(<<l>>, "sym", [up |-> 0, down |-> <<m>>], a), ELnk(<<m>>, "sym", p, a), EReg(<<l, l>>)>> : p \in PlacesTL, a \in {0, 1}}
+          \cup (IF TIER = "quick" THEN {}
+                ELSE {<<EReg(<<m, l>>), ELnk(x[1], t, p, a), EReg(x[2])>> : x \in NF, t \in {"sym", "hard"}, p \in PlacesTL, a \in {0, 1}}
+                     \cup {<<ELnk(x[1], "sym", p, a), [EReg(x[2]) EXCEPT !.typ = "dir"], EReg(x[2] \o <<l>>)>> : x \in NF, p \in PlacesTL, a \in {0, 1}})
+ArchPred(ar) == [flat |-> B01(TarConfined(UM, TarRun("flat", UM, TarS0, ar))), links |-> B01(TarConfined(UM, TarRun("links", UM, TarS0, ar)))]
+
 \* predictions for the flags of metainfo.New (utf8 on): the model is applied to the EFFECTIVE torrent
 Pred(at) == LET t == Effective(at, TRUE) IN
            [acc_cur |-> B01(Accepts(t, "cur")), acc_fix |-> B01(Accepts(t, "fix")),
@@ -106,7 +129,8 @@ PredW(x) == LET t == [name |-> x.name, files |-> x.files] IN
 TarPred(e) == B01(TarAccepts(RootOf(UM), AsPath(e)))
 
 VARIABLE c
-Init == /\ c = Cardinality(Torrents) + Cardinality(TarEntries)
+Init == /\ c = Cardinality(Torrents) + Cardinality(TarEntries) + Cardinality(ArchTL)
+        /\ \A a \in ArchTL : PrintT("@@" \o ToJson([kind |-> "tarseq", arch |-> a, pred |-> ArchPred(a)]))
         /\ \A x \in Torrents : PrintT("@@" \o ToJson([kind |-> "torrent", t |-> x, pred |-> IF x.fam = "W" THEN PredW(x) ELSE Pred(x)]))
         /\ \A e \in TarEntries : PrintT("@@" \o ToJson([kind |-> "tar", entry |-> e, pred |-> TarPred(e)]))
 Next == FALSE /\ UNCHANGED c
